@@ -83,6 +83,17 @@ PROPS = {
                                      'PEAK timestamps are located by the marker outside the audio data region reported by the hook'],
         floor={'quick': 300, 'thorough': 1000},
     ),
+    'C09': dict(
+        runs=[dict(src='c09_invalid_calls.c')],
+        level='exploration',
+        rule=('case = all call sequences of depth 3 (4 formats; depth 2 on 8 more; thorough: depth 3 everywhere) from a 28-call alphabet of valid and '
+              'invalid calls (wrong mode, misaligned/negative/zero counts, bad whence, negative/out-of-range seek, unknown command, NULL data, bad string '
+              'type, NULL string, read-only set_string/set_chunk, bad truncate) on read / write / rdwr handles of 12 representative formats; plus 10 kinds '
+              'of failing sf_open* (fd and heap accounting), NULL-handle calls and the sf_error_number table. distinct = hash(format, mode, call sequence)'),
+        assumptions=COMMON_ASSUME + ['which calls are invalid, and their failure values, are a harness table written from docs/api.md',
+                                     'zero-length reads return before the error state is touched: neither success nor failure is asserted for them'],
+        floor={'quick': 200, 'thorough': 500},
+    ),
 }
 
 NOT_APPLICABLE = {}
